@@ -30,6 +30,8 @@ import runlib
 import scen
 
 VERIF = buildlib.VERIF
+# evidence goes to /verif/evidence; runs against a scratch copy of the repository (seeded changes) set VERIF_EVIDENCE_DIR
+EVID = os.environ.get("VERIF_EVIDENCE_DIR") or os.path.join(VERIF, "evidence")
 LEAN = os.path.join(VERIF, "lean")
 ALLOWED_AXIOMS = {"propext", "Classical.choice", "Quot.sound"}
 
@@ -174,15 +176,17 @@ def plan(prop, tier, seed):
             G.append([(name, f(S(), *a, **kw))])
     if prop == "C01":
         data(n(50, 600)); data(n(10, 80), with_close=True, updates=True); fam(n(20, 200), scen.window_session, "window"); data(n(3, 30), big_groups=True)
+        fam(n(12, 200), scen.deep_session, "deep")
     elif prop == "C02":
         data(n(40, 400)); fam(n(40, 500), scen.window_session, "window")
     elif prop == "C03":
-        data(n(50, 500), p_rel=0.5); data(n(5, 60), big_groups=True)
+        data(n(50, 500), p_rel=0.5); data(n(5, 60), big_groups=True); fam(n(30, 400), scen.wrap_partial_session, "wrap-partial")
     elif prop == "C04":
         data(n(25, 300))
         for _ in range(n(25, 400)):
             G.append(twin_replay(S()))
         fam(n(25, 400), scen.hs_replay_session, "hs-replay")
+        fam(n(12, 200), scen.deep_session, "deep")
     elif prop == "C05":
         for _ in range(n(80, 1500)):
             s = S()
@@ -208,14 +212,14 @@ def plan(prop, tier, seed):
         fam(n(30, 500), scen.listener_session, "lsn")
         data(n(5, 40), big_groups=True)
     elif prop == "C10":
-        data(n(80, 1200), with_close=True, updates=True)
+        data(n(80, 1200), with_close=True, updates=True); fam(n(40, 600), scen.close_burst_session, "close-burst")
     elif prop == "C11":
         data(n(30, 400)); data(n(15, 150), with_close=True, updates=True); fam(n(10, 100), scen.large_session, "large"); fam(n(12, 200), scen.unit_session, "unit")
     elif prop == "C12":
         data(n(25, 300)); data(n(15, 150), with_close=True, updates=True); fam(n(10, 150), scen.large_session, "large"); fam(n(10, 100), scen.window_session, "window")
         fam(n(12, 200), scen.unit_session, "unit")
     elif prop == "C13":
-        data(n(40, 400)); fam(n(20, 200), scen.window_session, "window")
+        data(n(40, 400)); fam(n(20, 200), scen.window_session, "window"); fam(n(6, 100), scen.deep_session, "deep"); fam(n(10, 150), scen.wrap_partial_session, "wrap-partial")
     elif prop == "C14":
         data(n(80, 1000), with_invalid=True)
     elif prop == "C15":
@@ -223,7 +227,7 @@ def plan(prop, tier, seed):
         for _ in range(n(20, 200)):
             G.append([("hs", scen.handshake_session(S()))])
     elif prop == "C16":
-        data(n(50, 800), with_close=True, updates=True); fam(n(30, 400), scen.window_session, "window")
+        data(n(50, 800), with_close=True, updates=True); fam(n(30, 400), scen.window_session, "window"); fam(n(15, 300), scen.close_burst_session, "close-burst")
         for _ in range(n(20, 300)):
             G.append([("hs", scen.handshake_session(S(), hostile=False))])
         fam(n(15, 200), scen.hostile_session, "hostile")
@@ -415,7 +419,7 @@ def main():
     if tier not in ("quick", "thorough"):
         tier = "quick"
     t0 = time.time()
-    os.makedirs(os.path.join(VERIF, "evidence"), exist_ok=True)
+    os.makedirs(EVID, exist_ok=True)
     findings = []  # (kind, text, replay_path, has_input)
     notes = []
 
@@ -618,7 +622,7 @@ def main():
         "assumptions": ["behaviours not sampled by the generators agree with the model", "int32 packet-id overflow, IEEE double order laws for Float, SHA-1/HMAC and raw C memory safety are modelled/observed, not proved (DESIGN.md section 7)"],
         "wall_s": round(wall, 2), "violations": len(reported),
     }
-    with open(os.path.join(VERIF, "evidence", prop + ".json"), "w") as fh:
+    with open(os.path.join(EVID, prop + ".json"), "w") as fh:
         json.dump(ev, fh, indent=1, default=str)
     log("%s tier=%s seed=%d: %d scenarios, %d theorems (%d discharged), %d model/code differences, %d monitor violations, %d crashes, %.1fs" % (
         prop, tier, seed, len(flat), obligations, discharged, len(diffs), len(mine), len(crashes), wall))
